@@ -36,6 +36,11 @@
 (* only used to show that RoundTrip / AdmitByRegistered bite.               *)
 (* Status, Registrable, verifyAttempt are transcribed from                  *)
 (* payment_status.go / payment.go; they are shared by both backends.        *)
+(* Properties of the round trip (end of the module): RoundTrip (img = reg   *)
+(* for every attempt after every call) and AdmitByRegistered (a Register is *)
+(* answered "mismatch" iff the route mismatches the REGISTERED routes of the*)
+(* in-flight attempts); the trace specification adds ConformRoute /         *)
+(* ConformRetRoute / RecordedRoundTrip on what the real stores hand back.   *)
 (*                                                                          *)
 (* Deliberate deviations of the code are NAMED actions, switched by a       *)
 (* constant so that the strict specification (both FALSE) is what the       *)
@@ -61,7 +66,8 @@ CONSTANTS Hashes,      \* payment names, e.g. {"h1","h2"}
           Lossy        \* hop fields the store loses ({} = the documented store)
 
 VARIABLES payments,    \* Hashes -> payment record
-          last         \* observation of the last call: [op, h, cls, n]
+          last         \* observation of the last call: [op, h, cls, n, id, rt]
+                       \* (id, rt: the arguments of a Register, else 0 / NoRoute)
 
 vars == <<payments, last>>
 
